@@ -62,6 +62,11 @@ type allocStep struct {
 	Q     int32  `json:"quota,omitempty"`
 	B     int32  `json:"burst,omitempty"`
 	Ready bool   `json:"ready"`
+	// reconfig: the schema's new limits (spec update of the UpstreamCluster), applied with UpstreamLimiter.Sync
+	NL  int32 `json:"newLocal,omitempty"`
+	NG  int32 `json:"newGlobal,omitempty"`
+	NLB int32 `json:"newLocalBurst,omitempty"`
+	NGB int32 `json:"newGlobalBurst,omitempty"`
 	// observation
 	E  int     `json:"effective"`              // admitted by the probe (max-in-flight: exact effective limit, capped at global+5)
 	Dt float64 `json:"probeSeconds,omitempty"` // token bucket: length of the probe window
@@ -210,8 +215,16 @@ func genAllocHistory(g *vkit.Rand, n int) *allocHistory {
 			st.Kind = "timeout"
 		case x < 88:
 			st.Kind = "unknown"
-		case x < 95:
+		case x < 93:
 			st.Kind = "stale"
+		case x < 97:
+			// spec update: new limits of the same type (local <= global)
+			st.Kind = "reconfig"
+			nc := genAllocCfg(g)
+			for nc.Type != h.Cfg.Type {
+				nc = genAllocCfg(g)
+			}
+			st.NL, st.NG, st.NLB, st.NGB = nc.L, nc.G, nc.LB, nc.GB
 		default:
 			st.Kind = "none"
 		}
@@ -223,7 +236,7 @@ func genAllocHistory(g *vkit.Rand, n int) *allocHistory {
 func (h *allocHistory) hash() uint64 {
 	s := fmt.Sprintf("%+v", h.Cfg)
 	for _, st := range h.Steps {
-		s += fmt.Sprintf("|%s,%d,%d,%v", st.Kind, st.Q, st.B, st.Ready)
+		s += fmt.Sprintf("|%s,%d,%d,%v,%d,%d,%d,%d", st.Kind, st.Q, st.B, st.Ready, st.NL, st.NG, st.NLB, st.NGB)
 	}
 	return vkit.Hash64(s)
 }
@@ -359,7 +372,8 @@ func runAllocHistory(r *vkit.R, h *allocHistory, g *vkit.Rand) {
 		last       grant   // the last delivered grant
 		nontrivial = h.nontrivial()
 		origin     = "first-answer"
-		tainted    bool // an exceeds-global violation was already reported for this history
+		tainted    bool  // an exceeds-global violation was already reported for this history
+		applied    = cfg // the configuration under which the remote limiter was last synced (a delivered answer)
 	)
 	if nontrivial {
 		r.Distinct(h.hash())
@@ -413,6 +427,19 @@ func runAllocHistory(r *vkit.R, h *allocHistory, g *vkit.Rand) {
 			gw.cs.setUnknown(true)
 		case "none":
 			roundTrip = false
+		case "reconfig":
+			// the local limit follows at once (localWrapper.Sync); the changed global limit reaches the remote limiter with
+			// the next answer (remoteWrapper.Sync clamps against the configuration current at that time)
+			roundTrip = false
+			cfg.L, cfg.G, cfg.LB, cfg.GB = st.NL, st.NG, st.NLB, st.NGB
+			gw.cfg = cfg
+			if p := vkit.Safely(func() {
+				gw.lim.Sync(proxyv1alpha1.FlowControl{Schemas: []proxyv1alpha1.FlowControlSchema{cfg.schema()}})
+			}); p != nil {
+				r.Violation(fmt.Sprintf("C09/allocate-%s/panic/reconfigure", cfg.Type), fmt.Sprintf("UpstreamLimiter.Sync panicked: %v", p), h)
+				return
+			}
+			r.Count("allocate_reconfigurations", 1)
 		}
 
 		before := gw.cs.allocCalls
@@ -438,12 +465,30 @@ func runAllocHistory(r *vkit.R, h *allocHistory, g *vkit.Rand) {
 			synced = true
 			last = cur
 			grants = append(grants, cur)
+			applied = cfg // remoteWrapper.Sync ran: the remote limiter now knows the current global limit
 		}
 		r.Count("allocate_steps", 1)
 		r.Count("allocate_step_"+st.Kind, 1)
 		r.Eval(1)
 
 		// ---- probe + oracle ----
+		// The oracle judges against the CURRENT configuration: the local limit as soon as Sync returned, the global limit
+		// once it was propagated to the remote limiter (= the next delivered answer). Until then the remote limiter is
+		// judged against the global limit it was last synced under; a remote limit above the new global limit in that
+		// window is counted (allocate_reconfig_unpropagated_above_new_global), not judged.
+		current := cfg
+		cfg := cfg
+		remoteMayBeInEffect := st.Ready && synced
+		if remoteMayBeInEffect {
+			cfg.G, cfg.GB = applied.G, applied.GB
+		}
+		gBound, gbBound := cfg.G, cfg.GB // "never more than global"; a fallback to the (new, larger) local limit is legitimate too
+		if cfg.L > gBound {
+			gBound = cfg.L
+		}
+		if cfg.LB > gbBound {
+			gbBound = cfg.LB
+		}
 		position := origin
 		gc := grantClass(cfg, last.q, last.b)
 		state := "ready-synced"
@@ -458,7 +503,7 @@ func runAllocHistory(r *vkit.R, h *allocHistory, g *vkit.Rand) {
 
 		if !isTB {
 			var E int
-			if p := vkit.Safely(func() { E = probeInflight(gw, int(cfg.G)+5) }); p != nil {
+			if p := vkit.Safely(func() { E = probeInflight(gw, int(gBound)+5) }); p != nil {
 				r.Violation(fmt.Sprintf("C09/allocate-maxinflight/panic/admission/%s", state), fmt.Sprintf("TryAcquire/Release panicked: %v", p), h)
 				return
 			}
@@ -468,8 +513,11 @@ func runAllocHistory(r *vkit.R, h *allocHistory, g *vkit.Rand) {
 			} else {
 				r.Count("allocate_probe_remote_in_effect", 1)
 			}
+			if remoteMayBeInEffect && E > int(current.G) && E <= int(gBound) {
+				r.Count("allocate_reconfig_unpropagated_above_new_global", 1)
+			}
 			switch {
-			case E > int(cfg.G):
+			case E > int(gBound):
 				r.Violation(fmt.Sprintf("C09/allocate-maxinflight/exceeds-global/%s/%s", position, gc),
 					fmt.Sprintf("max-in-flight schema local=%d global=%d, allocate strategy: after step %d (%s, last delivered quota %d, %s) the gateway admitted %d concurrent requests (probe capped at global+5)",
 						cfg.L, cfg.G, si, st.Kind, last.q, position, E), trimmed(h, si))
@@ -503,7 +551,7 @@ func runAllocHistory(r *vkit.R, h *allocHistory, g *vkit.Rand) {
 		}
 
 		// token bucket: sound one-sided window bounds, per probe
-		cap := int(cfg.GB) + 5
+		cap := int(gbBound) + 5
 		var n int
 		var t0, t1 int64
 		if p := vkit.Safely(func() { n, t0, t1 = probeBucket(gw, cap) }); p != nil {
@@ -532,10 +580,10 @@ func runAllocHistory(r *vkit.R, h *allocHistory, g *vkit.Rand) {
 			r.Count("allocate_probe_local_in_effect", 1)
 		}
 		switch {
-		case float64(n) > bound(cfg.G, cfg.GB):
+		case float64(n) > bound(gBound, gbBound):
 			r.Violation(fmt.Sprintf("C09/allocate-tokenbucket/exceeds-global/%s/%s", position, gc),
 				fmt.Sprintf("token-bucket schema local=(%d qps, burst %d) global=(%d qps, burst %d), allocate strategy: after step %d (%s, last delivered (qps %d, burst %d), %s) the gateway admitted %d requests within %.6fs (probe capped at global burst+5); the global bucket allows at most %.1f",
-					cfg.L, cfg.LB, cfg.G, cfg.GB, si, st.Kind, last.q, last.b, position, n, dt, bound(cfg.G, cfg.GB)-1), trimmed(h, si))
+					cfg.L, cfg.LB, cfg.G, cfg.GB, si, st.Kind, last.q, last.b, position, n, dt, bound(gBound, gbBound)-1), trimmed(h, si))
 			tainted = true
 			continue
 		case tainted:
